@@ -58,11 +58,16 @@ func (r *RMRemoting) BranchRegister(param BranchRegisterParam) (int64, error) {
 		ApplicationData: []byte(param.ApplicationData),
 	}
 	resp, err := getty.GetGettyRemotingClient().SendSyncRequest(request)
-	if err != nil || resp == nil {
-		log.Errorf("BranchRegister error: %v, res %v", err.Error(), resp)
+	if err != nil {
+		log.Errorf("BranchRegister error: %v, res %v", err, resp)
 		return 0, err
 	}
-	branchResp := resp.(message.BranchRegisterResponse)
+	// no reply, or a reply that is not a branch register response: the branch is not registered
+	branchResp, ok := resp.(message.BranchRegisterResponse)
+	if !ok {
+		log.Errorf("BranchRegister error: unexpected response %#v", resp)
+		return 0, fmt.Errorf("BranchRegister: unexpected response %T", resp)
+	}
 	if branchResp.ResultCode == message.ResultCodeFailed {
 		return 0, fmt.Errorf("Response %s", branchResp.Msg)
 	}
